@@ -21,6 +21,7 @@ type harness struct {
 	bt  *btModel
 	// which variant of the code is under test (decided by the probes)
 	l9, unkLast, btOver, btSkip bool
+	probeHists                  []runnerHistory
 }
 
 func repeatInt(v, n int) []int {
@@ -51,6 +52,8 @@ func main() {
 		lib.Finish(f, res)
 	}
 	h.probes()
+	h.svCorrespondence()
+	h.runnerAll()
 	h.blockTxAll()
 	lib.Finish(f, res)
 }
@@ -77,6 +80,11 @@ func (h *harness) replay(path string) {
 			return
 		}
 		h.blockTxImage(rp.Spec, "replay")
+		return
+	}
+	var hist runnerHistory
+	if err := json.Unmarshal(doc.Replay, &hist); err == nil && len(hist.Starts) > 0 {
+		h.runnerHistoryCase(hist, "replay")
 		return
 	}
 	h.res.Note("replay: no replayer for sig %q", doc.Sig)
